@@ -2,6 +2,7 @@ package respgen
 
 import (
 	"fmt"
+	"strings"
 
 	"verif/track"
 )
@@ -27,7 +28,7 @@ func QuickConfig() Config {
 	return Config{
 		Depth: 4, Split: 2,
 		Targets:   []int{65534, 65535, 65536, 65537},
-		WFixed:    []int{0, 1, 100, 70000, 131072},
+		WFixed:    []int{0, 1, 100, 65536, 70000, 131072},
 		WSFixed:   []int{1, 70000},
 		WSTargets: []int{65536},
 		CLFixed:   []int{100, 70000, 131072},
@@ -42,7 +43,8 @@ func QuickConfig() Config {
 func ThoroughConfig() Config {
 	c := QuickConfig()
 	c.Depth = 5
-	c.WSFixed = []int{0, 1, 100, 70000, 131072}
+	c.WFixed = []int{0, 1, 100, 65535, 65536, 70000, 131072}
+	c.WSFixed = []int{0, 1, 100, 65536, 70000, 131072}
 	c.WSTargets = c.Targets
 	c.CLFixed = []int{0, 100, 70000, 131072}
 	c.CLTargets = c.Targets
@@ -66,6 +68,16 @@ type Node struct {
 	Partial  bool
 	Verdicts []Verdict
 	Tainted  bool
+	// Origin: the earliest prefix (a partially judged program) whose wire-so-far was already
+	// wrong; a failure of this program is attributed there (see JudgeSoFar).
+	Origin *Origin
+}
+
+// Origin records where the wire first went wrong in a partially judged prefix.
+type Origin struct {
+	Prog     Program
+	R        *Result
+	Verdicts []Verdict
 }
 
 // Sharder is vkit.Shard's Mine method.
@@ -140,6 +152,7 @@ func (x *Explorer) writeOverhead(n *Node) (int, bool) {
 	x.Probes++
 	r := x.run(appendOp(n.Prog, succ{op: Op{K: OpW, N: s0}}))
 	l, ok := landing(r)
+	r.Release(x.Env)
 	if !ok || r.Ops[len(r.Ops)-1].Err != "" {
 		return 0, false
 	}
@@ -153,10 +166,12 @@ func (x *Explorer) headLen(n *Node) (int, bool) {
 	p := appendOp(n.Prog, succ{op: Op{K: OpCL, N: 60000}})
 	p = appendOp(p, succ{op: Op{K: OpW, N: 60000}})
 	r := x.run(p)
-	if r.Hang || r.Panic != "" || len(r.Wire) <= 60000 {
+	nw := len(r.Wire)
+	r.Release(x.Env)
+	if r.Hang || r.Panic != "" || nw <= 60000 {
 		return 0, false
 	}
-	return len(r.Wire) - 60000, true
+	return nw - 60000, true
 }
 
 func contains(l []int, v int) bool {
@@ -319,7 +334,30 @@ func (n *Node) judge(parent *Node) {
 	}
 	n.Judged = true
 	n.Partial = n.Model.Excluded() != ""
-	n.Verdicts = Judge(n.Model, n.R, n.Partial)
+	all := Judge(n.Model, n.R, n.Partial)
+	if parent != nil {
+		n.Origin = parent.Origin
+	}
+	if !n.Partial {
+		n.Verdicts = all
+		return
+	}
+	// A program that has not completed its declared body: what its operations returned (and a
+	// panic) is reportable; what is wrong on the wire so far is not (the handler stopped short of
+	// its own Content-Length) but it marks where the failure of every completion comes from.
+	var wire []Verdict
+	for _, v := range all {
+		if opTimeClause(v.Clause) || strings.HasPrefix(v.Clause, "panic") || v.Clause == "hang" {
+			n.Verdicts = append(n.Verdicts, v)
+		} else {
+			wire = append(wire, v)
+		}
+	}
+	if len(n.Verdicts) == 0 && len(wire) > 0 && n.Origin == nil {
+		r := *n.R
+		r.Wire, r.T, r.Viol = nil, nil, nil
+		n.Origin = &Origin{Prog: n.Prog, R: &r, Verdicts: wire}
+	}
 }
 
 // Attribute re-derives Judged/Verdicts/Tainted for a single program by judging all its prefixes
@@ -352,8 +390,8 @@ func (n *Node) expandable() bool {
 }
 
 // trim drops what is not needed to expand the node later.
-func (n *Node) trim() {
-	n.R.Wire = nil
+func (n *Node) trim(e *Env) {
+	n.R.Release(e)
 	n.R.T = nil
 	n.R.Viol = nil
 	n.R.Dump = ""
@@ -380,7 +418,7 @@ func (x *Explorer) Explore(sh Sharder) {
 			x.States++
 			x.Visit(root)
 		}
-		root.trim()
+		root.trim(x.Env)
 		frontier := []*Node{root}
 		split := x.Cfg.Split
 		if split > x.Cfg.Depth {
@@ -409,7 +447,7 @@ func (x *Explorer) Explore(sh Sharder) {
 						}
 						x.Visit(c)
 					}
-					c.trim()
+					c.trim(x.Env)
 				}
 			}
 			frontier = next
@@ -453,7 +491,7 @@ func (x *Explorer) subtree(root *Node, level int, global map[stateKey]bool) {
 					x.States++
 				}
 				x.Visit(c)
-				c.trim()
+				c.trim(x.Env)
 			}
 		}
 		frontier = next
